@@ -178,6 +178,18 @@ PROPS = {
         rule="(documents) 20 pinned texts (empty, null, arrays, unterminated, YAML idioms: no/~/10.0/quoted numbers, flow maps, nested retry rules three deep, duplicate cache ids, caches of the wrong type, key-case variants) + random documents of 1-4 rules over every field (methods, host, scheme, enabled, type, hostheader, internal, recompression, cache, force_revalidate, request/response header maps with padded names, null and numeric values, restart_on_redirect, retry_rule to depth 3, unknown fields) and 0-2 caches, 65% of them damaged in 1-3 places (field dropped, value replaced by one of 15 wrong-typed or odd values, key re-cased, list element duplicated, string replaced by one of 20 invalid paths/methods/types/destinations/sizes); each rendered as JSON and as YAML (yaml.Marshal), both through the real ParseRules and ParseStorageConfigs, accepted rules dumped field by field, 3 requests routed through the real server under each accepted spelling; (reloads) 24/160 sequences of 3-7 documents against the real binary: each a new version with a random subset of three caches, 45% damaged (rules of the wrong type, bad wildcard, bad destination, caches not a list, duplicate cache, junk, file missing, same text again), always ending with a good one; (rule swaps) 2 runs of 8 x 1500/15000 requests while SetRules flips between two rule sets; non-trivial = all; distinct = distinct case encodings",
         classify=lambda row: "reload" if row["case"].startswith("( s72656c6f6164 ") else ("swap" if row["case"].startswith("( s73776170 ") else "document"),
     ),
+    "C14": dict(
+        family="crash", xcheck=60,
+        proof_files=["Proofs/C14Proofs.v"],
+        trusted_base=TB_COMMON + ["strace 6.x: the recorded sequence of openat/write/setxattr/rename/unlink calls on the entry, .tmp, changed-key and access-log paths IS the implementation's effect list (compared with the model's on every run), and -e inject=<call>:signal=SIGKILL:when=n kills the operation's process on entry to the n-th such call (the call does not take effect)",
+                                  "a process crash, not a power failure: what was written before the kill is what a restart finds (no fsync in the code; page-cache loss is outside the property)",
+                                  "operations are driven through the Storage interface (GetWriter, WriteHeader, Write, ChangeKey, Close) in the order server.go uses; the limiter's eviction is an unlink"],
+        assumptions=ASSUME_COMMON + ["the old entry is a complete version (it was stored by a completed fill)",
+                                     "ChangeKey is called before the response head is written, as server.go does (after it, ChangeKey renames a file into a directory that may not exist: not reachable from the server)"],
+        rule="7 operations (fill with and without Content-Length, revalidation storing a new body through .tmp and rename, 304 revalidation rewriting the metadata in place, fill under a changed key, refill after eviction, access-log append and rewrite with ATIME_LOG_SIZE_BYTES=200) x every file-system call the real code makes on the traced paths (kill on entry to the n-th openat, write, setxattr, renameat, unlinkat) + the run to completion: 44 crash points; after each, a fresh DiskStorage (and the limiter's start-up) on the directory, Get on both names, and a refill of every name not served; non-trivial = all; distinct = distinct case encodings",
+        exhaustive=True,
+        classify=lambda row: "crash-point",
+    ),
     "C04": dict(
         family="route",
         proof_files=["Proofs/C04Proofs.v", "Proofs/HeaderFacts.v", "Spec/SpecC04.v", "Proofs/RouteProofs.v", "Proofs/ForwardProofs.v"],
